@@ -15,7 +15,7 @@ def run(ctx):
     # by columns only with diagonal entries of either sign and rows (columns) rescaled, where the diagonal is usually NOT the
     # largest candidate, so that the preference for the diagonal at threshold 0 is what keeps the pivots on it.
     for i, (P, dom) in enumerate([(1, 1), (2, 1), (4, 1), (1, "row"), (2, "row"), (4, "row"), (3, "col")]):
-        recs += S.sweep(ctx, 70 if q else 1500, 40 if q else 160, precs="dszc" if dom != 1 else "ds", drivers=("gssvx",), flavour="asan",
+        recs += S.sweep(ctx, 70 if q else 700, 40 if q else 120, precs="dszc" if dom != 1 else "ds", drivers=("gssvx",), flavour="asan",
                         force={"symm": 1, "colperm": 2, "u": 0.0, "dominant": dom, "nprocs": P, "evlog": 1, "stype": "NC",
                                "kind": ["random", "band", "grid", "arrow", "forest", "tridiag", "blockdiag", "dense"]}, seed_offset=600 + i)
     S.judge(ctx, recs, ["wfL", "wfU", "permr", "permc", "lower", "upper", "lu", "diag", "resid"], "symmetric-mode")
